@@ -18,7 +18,9 @@
 (*     driver claims to have generated; <<>> when no claim), zsum (the     *)
 (*     driver claims total cancellation).                                  *)
 (*  op "add" / "sub": out = add(a, b) / subtract(a, b).                    *)
-(*  op "mul" / "sq": out = multiply(a, b) / square(a)   (fast = FALSE).    *)
+(*  op "mul" / "sq": out = multiply(a, b) / square(a)   (fast = FALSE);     *)
+(*     tp = the results <<x, y, h, l>> of the public apmath.two_prod(x, y) *)
+(*     on the pairs of non-zero items (the building block of the product). *)
 (*                                                                         *)
 (* Clauses (names printed in FAIL lines):                                  *)
 (*  raised, nonfinite, length, zeros_right, sum  - pass 1 (PassFails)      *)
@@ -27,7 +29,11 @@
 (*     normal form (input = the docstring's decreasing magnitudes or not)  *)
 (*  ulp_bound_nf_operands / ulp_bound_raw_operands(_truncated): the        *)
 (*     product differs from the exact product by one ulp of its leading    *)
-(*     term or more (operands in normal form or not; result cut or not)    *)
+(*     term or more (operands in normal form or not; result cut or not);   *)
+(*     the suffix _two_prod_inexact is added when a logged two_prod result *)
+(*     is not error-free (h + l # x * y): the building block - another     *)
+(*     property's subject - already lost the bits.  The suffix only NAMES  *)
+(*     the failure more narrowly, it never turns a failure into a pass.    *)
 (* Notes (statistics, never failures): ood_overflow, ood_fast,             *)
 (*  fast_sorted_sum_changed, truncated, second_pass, ood_product, inexact, *)
 (*  nf_operands, drift (result differs from the transcription),            *)
@@ -123,12 +129,17 @@ MulVerdict(e) ==
       bad == dom /\ fin /\ ~DLt(err, UlpD(f, lead))
       cut == fin /\ NNZ(f, out) >= limit
       nfops == dom /\ NF(f, a) /\ NF(f, b)
+      tpbad == \E i \in 1..Len(e.tp) :
+                  LET t == e.tp[i]
+                  IN  /\ IsFinite(f, t[3]) /\ IsFinite(f, t[4])
+                      /\ ~DEq(DAdd(Val(f, t[3]), Val(f, t[4])), DMul(Val(f, t[1]), Val(f, t[2])))
+      name(c) == IF tpbad THEN c \o "_two_prod_inexact" ELSE c
   IN  [fails |-> (IF Len(out) > limit THEN {"length"} ELSE {})
                  \cup (IF functional /\ fin /\ ~ZerosRight(f, out) THEN {"zeros_right"} ELSE {})
                  \cup (IF dom /\ ~fin THEN {"nonfinite"} ELSE {})
-                 \cup (IF bad THEN {IF nfops THEN "ulp_bound_nf_operands"
-                                    ELSE IF cut THEN "ulp_bound_raw_operands_truncated"
-                                    ELSE "ulp_bound_raw_operands"} ELSE {}),
+                 \cup (IF bad THEN {name(IF nfops THEN "ulp_bound_nf_operands"
+                                         ELSE IF cut THEN "ulp_bound_raw_operands_truncated"
+                                         ELSE "ulp_bound_raw_operands")} ELSE {}),
        notes |-> (IF ~dom THEN {"ood_product"} ELSE {})
                  \cup (IF nfops THEN {"nf_operands"} ELSE {})
                  \cup (IF dom /\ fin /\ cut THEN {"truncated"} ELSE {})
